@@ -31,7 +31,7 @@ MONITORS = ["group", "group_raises", "count_steps", "count_mines", "count_holds_
 REQUIRED = ["overlapping_holds", "interrupted_head", "orphan_tail", "unclosed_head", "same_beat_mixed_types",
             "corpus_chart", "interrupted_head_while_younger_open", "type_subset", "stream_given_as_notedata",
             "full_row_with_minimum_equal_to_columns", "consecutive_notes_less_than_a_tick_apart",
-            "some_hold_open_for_more_than_256_notes", "include_note_types_given_as_a_plain_set", "notedata_input_in_compact_layout"]
+            "some_hold_open_for_more_than_256_notes", "include_note_types_given_as_a_plain_set", "notedata_input_in_compact_layout", "stream_of_more_than_16384_notes"]
 
 GRID_KINDS = "01234M"  # index 0..4 used: 0 empty, 1 tap, 2 hold head, 3 tail, 4 -> mine
 GRID_MAP = ["0", "1", "2", "3", "M"]
@@ -98,6 +98,9 @@ def cases(ctx):
         # one hold with more than a thousand notes under it, all released at once when it ends
         long_hold = [[0, 1, 0, "2", None]] + [[r, 4, 1 + (r % 2), "1", None] for r in range(1, 1300)] + [[400, 1, 0, "3", None]]
         yield {"kind": "random", "notes": long_hold, "include": None, "minimum": 1, "chain": True}
+    if ctx.shard == 0:
+        # a stream of more than 16384 notes whose two-note beats sit on and around index 16384 (and 32768 in the thorough tier)
+        yield {"kind": "big", "n": 16384 * (1 if quick else 2) + 40}
     n = ctx.split(800 if quick else 16 * 30000)
     for i in range(n):
         types = rng.choice(["1234M", "1234M", "234", "1234AFKLM", "12344M3", "23"])
@@ -137,7 +140,42 @@ def note_tuple(x):
     return (Fraction(x.beat), x.column, x.note_type.value, x.player, x.keysound_index)
 
 
+def check_big(ctx, case):
+    """One long stream: jumps every 7th beat and on the notes around every multiple of 16384; JOIN_ALL / BY_TYPE rows
+    and the step / jump counts against the reference."""
+    from simfile.notes import count as C
+    from simfile.notes.group import SameBeatNotes, group_notes
+
+    notes = []
+    beat = 0
+    while len(notes) < case["n"]:
+        k = len(notes)
+        near = min(k % 16384, 16384 - k % 16384) <= 3 and k > 100
+        if near or beat % 7 == 0:
+            notes.append([beat, 4, 0, "1", None])
+            notes.append([beat, 4, 1, "1" if beat % 2 else "M", None])
+        else:
+            notes.append([beat, 4, beat % 3, "1", None])
+        beat += 1
+    ctx.begin(case, nontrivial=True, sample={"kind": "big", "n_notes": len(notes)})
+    ctx.feat("stream_of_more_than_16384_notes")
+    model, real = to_model(notes), to_real(notes)
+    for sb, mode in ((R.ALL, SameBeatNotes.JOIN_ALL), (R.BY_TYPE, SameBeatNotes.JOIN_BY_NOTE_TYPE)):
+        ctx.mon("group")
+        want = R.group(model, frozenset(G.NOTE_CHARS), sb, False, R.RAISE, R.RAISE)
+        got = [[real_item(x) for x in g] for g in group_notes(iter(real), same_beat_notes=mode)]
+        if got != want:
+            i = next((i for i, (a, b) in enumerate(zip(got, want)) if a != b), min(len(got), len(want)))
+            ctx.violation(f"group:big-stream:sb{sb}", {"index": i, "got": repr(got[i:i + 2]), "want": repr(want[i:i + 2]), "n_got": len(got), "n_want": len(want)})
+    ctx.mon("count_steps")
+    ctx.expect(C.count_steps(iter(real)) == R.count_steps(model), "count_steps:big-stream", got=C.count_steps(iter(real)), want=R.count_steps(model))
+    ctx.expect(C.count_jumps(iter(real)) == R.count_steps(model, minimum=2), "count_jumps:big-stream",
+               got=C.count_jumps(iter(real)), want=R.count_steps(model, minimum=2))
+
+
 def check(ctx, case):
+    if case["kind"] == "big":
+        return check_big(ctx, case)
     if case["kind"] == "grid":
         ctx.begin(case, nontrivial=False)
         ctx.evaluations -= 1
